@@ -137,6 +137,29 @@ impl Display for Error {
 
 impl std::error::Error for Error {}
 
+impl Error {
+    /// Convert a pest error, locating it in `input` with the same line
+    /// terminator rules as the positions of syntax tree nodes (pest itself does
+    /// not treat a lone carriage return as a line terminator).
+    pub(crate) fn from_pest<R: RuleType>(err: pest::error::Error<R>, input: &str) -> Self {
+        use pest::error::InputLocation;
+
+        let location = err.location.clone();
+        let mut this = Self::from(err);
+        if let Error::Syntax { start, end, .. } = &mut this {
+            let pos_at = |offset: usize| pos::PositionCalculator::pos_at(input, offset.min(input.len()));
+            match location {
+                InputLocation::Pos(at) => *start = pos_at(at),
+                InputLocation::Span((from, to)) => {
+                    *start = pos_at(from);
+                    *end = Some(pos_at(to));
+                }
+            }
+        }
+        this
+    }
+}
+
 impl<R: RuleType> From<pest::error::Error<R>> for Error {
     fn from(err: pest::error::Error<R>) -> Self {
         let (start, end) = match err.line_col {
